@@ -180,7 +180,9 @@ theorem C07_component_cut (s s' : BP α) (ev : Ev α) :
     blank, the run pushed the error `empty-name:ingredient` (resp. `empty-name:cookware`), severity
     error, stage parse, whose only label is the span of that name text.
     Partial: that this label lies inside the component's span is not proved here (it is checked on
-    every run by the planted-construct oracle and by C04 for well-formedness of the span). -/
+    every run by the planted-construct oracle and by C04 for well-formedness of the span).
+    [Now proved separately, for every diagnostic of the component: `C07_label_inside_ingredient`,
+    `C07_label_inside_cookware`.] -/
 theorem C07_empty_name_partial (s s' : BP α) :
     (∀ i, ingredientP s = (some (.ingredient i), s') → i.val.name.isTextEmpty s.cs = true →
       Has (.error ⟨.error, .parse, "empty-name:ingredient", [i.val.name.span]⟩) s s') ∧
@@ -206,7 +208,7 @@ theorem C07_empty_name_partial (s s' : BP α) :
     on them (run where the parser reaches it: a state `sq` with the same tables and extensions and a
     longer queue) returns a quantity with a unit, the run pushed the error `cookware-unit` (error,
     parse) labelled from the `%` separator (or, without separator, the unit's start) to the unit's end.
-    Partial: label-inside-the-component is not proved. -/
+    Partial: label-inside-the-component is not proved.  [Now: `C07_label_inside_cookware`.] -/
 theorem C07_cookware_unit_partial (s s1 s2 s3 s4 : BP α) (mtoks : List Tok) (body : Body) (note : Option Text)
     (hc : Cut .hash s mtoks body s1 s2 s3) (hn : noteP s3 = (note, s4)) :
     ∃ sq, Grow s sq ∧ ∀ qt unit, body.quantity = some qt →
@@ -230,7 +232,8 @@ theorem C07_cookware_unit_partial (s s1 s2 s3 s4 : BP α) (mtoks : List Tok) (bo
       position after the name);
     * no quantity, not TIMER_REQUIRES_TIME, blank name ⇒ `timer-neither-name-nor-quantity` labelled
       from the name offset to the closing brace.
-    All are severity error, stage parse.  Partial: label-inside-the-component is not proved. -/
+    All are severity error, stage parse.  Partial: label-inside-the-component is not proved.
+    [Now: `C07_label_inside_timer`.] -/
 theorem C07_timer_diagnostics_partial (s s1 s2 s3 : BP α) (mtoks : List Tok) (body : Body)
     (hc : Cut .tilde s mtoks body s1 s2 s3) :
     (mtoks.isEmpty = false →
@@ -821,7 +824,8 @@ example : ircDefinedInStep (⟨[], none, none, none, none, ⟨.definition [] fal
     with empty modifiers, that name, no alias, no quantity, and pushes NO event at all (the queue,
     the tables and the extensions of the final state are those of the initial state).
     Partial: the analysis half (default modes push nothing for such a definition), timers, and the
-    extension to `{n%unit}` are not proved here. -/
+    extension to `{n%unit}` are not proved here.  [Now: `C07_quiet_analysis`, `C07_quiet_component_quantity`,
+    `C07_quiet_component_number`, `C07_quiet_quantity`.] -/
 theorem C07_quiet_component_partial (s s1 s2 s3 s4 : BP α) (body : Body) (note : Option Text)
     (hq : body.quantity = none)
     (ha : s.ext.has Gen.EXT_COMPONENT_ALIAS = false ∨ ∀ t ∈ body.name, t.kind ≠ .or)
